@@ -152,6 +152,7 @@ func runC12(args []string, in *bufio.Scanner, out *bufio.Writer) {
 	}
 	mu.Unlock()
 	if hung {
+		fmt.Fprintln(out, "QTRACE "+strings.Join(samehada.VerifReqTraceTake(), ";"))
 		fmt.Fprintln(out, "HUNG")
 		out.Flush()
 		os.Exit(0)
@@ -170,6 +171,7 @@ func runC12(args []string, in *bufio.Scanner, out *bufio.Writer) {
 	}
 	sort.Strings(fs)
 	fmt.Fprintln(out, "FINAL ins "+strings.Join(fs, " "))
+	fmt.Fprintln(out, "QTRACE "+strings.Join(samehada.VerifReqTraceTake(), ";"))
 	fmt.Fprintln(out, "DONE")
 	out.Flush()
 	os.Exit(0)
